@@ -68,4 +68,10 @@ def dirty_split(prog, fn):
         if o.kind == "param" and o.proj and o.proj[-1].endswith(".dirty"):
             return True
         return False
-    return find_bool_split(prog, fn, pred)
+    # flow-insensitive tracing also sees the later `dirty = false` store of the same function as a (constant) origin
+    hits = []
+    for sw in bool_switches(prog, fn):
+        c = sw["cond"]
+        if c and any(pred(o) for o in c) and all(pred(o) or (o.kind == "const" and isinstance(o.data, bool)) for o in c):
+            hits.append(sw)
+    return hits
